@@ -32,7 +32,8 @@ def variant(rng, key):
 
 def gen_file(rng):
     """structured potable pair model: OrderedDict section -> list of [rawkey, value]"""
-    species = rng.sample(["A", "B", "O", "Si", "Xe", "U"], rng.randint(2, 4))
+    # (labels that differ only in case are different species and different keys: round-10 seed C14_15 folded the case of command-line keys)
+    species = rng.sample(["A", "B", "O", "Si", "Xe", "U"] + (["SI", "a", "xe", "o"] if rng.random() < 0.35 else []), rng.randint(2, 4))
     secs = collections.OrderedDict()
     if rng.random() < 0.25:
         secs["Variables"] = [["scale", "2.0"], ["unused var", "7"]][: rng.randint(1, 2)]
@@ -44,6 +45,11 @@ def gen_file(rng):
             continue
         seen.add(frozenset((a, b)))
         pairs.append([variant(rng, "%s-%s" % (a, b)), rng.choice(["as.buck %d.0 0.3 %d.0" % (rng.randint(100, 999), rng.randint(0, 30)), "myform %d.5" % rng.randint(1, 9), "as.zero"])])
+    if pairs and rng.random() < 0.2:
+        # a second pair whose key differs from an existing one in case only: another species, another item
+        twin = norm(pairs[0][0]).upper()
+        if twin != norm(pairs[0][0]) and all(norm(k) != twin for k, _v in pairs):
+            pairs.append([twin, "as.buck 321.0 0.3 1.0"])
     secs["Pair"] = pairs
     secs["Potential-Form"] = [[variant(rng, "myform(r,a)"), "a*exp(-r)"]] + ([[variant(rng, "other(r, b, c)"), "b+c*r"]] if rng.random() < 0.4 else [])
     if rng.random() < 0.3:
@@ -119,6 +125,18 @@ def gen_ops(rng, secs, species):
                 ops.append(["add", "Extra", secs["Variables"][0][0], "named like a variable"])
             else:
                 ops.append(["add", "Extra", "note", "hello"])
+    # an item named again after its removal (API route: the operations are applied one after the other to the file as the earlier ones left it - seed C14_14)
+    removed = [o for o in ops if o[0] == "remove"]
+    if removed and rng.random() < 0.35:
+        o = rng.choice(removed)
+        ops.append(rng.choice([["remove", o[1], o[2]], ["override", o[1], o[2], "as.buck 999.0 0.25 1.0" if o[1] == "Pair" else "1"]]))
+    # two items of one section whose keys differ in case only are overridden in ONE invocation, each with its own value (round-10 seed C14_15: the command line
+    # collected its options under a case-folded key, the earlier option was dropped)
+    twins = [(s, k1, k2) for s, kvs in secs.items() for i, (k1, _a) in enumerate(kvs) for (k2, _b) in kvs[i + 1:] if norm(k1) != norm(k2) and norm(k1).lower() == norm(k2).lower()]
+    if twins and rng.random() < 0.6:
+        s, k1, k2 = rng.choice(twins)
+        if s == "Pair":
+            ops += [["override", s, k1, "as.buck 555.0 0.25 1.0"], ["override", s, k2, "as.buck 777.0 0.25 2.0"]]
     return ops
 
 
